@@ -452,11 +452,23 @@ class HttpProxyPlugin(HttpProtocolHandlerPlugin):
                             return
                         self.pipeline_request = r
                     assert self.pipeline_request is not None
+                    # Same treatment as for the first request on this
+                    # connection, see on_request_complete.
+                    self.pipeline_request.del_headers(
+                        [
+                            httpHeaders.PROXY_AUTHORIZATION,
+                            httpHeaders.PROXY_CONNECTION,
+                        ],
+                    )
+                    if not self.request.is_https_tunnel:
+                        self._add_via_header(self.pipeline_request)
                     # TODO(abhinavsingh): Remove memoryview wrapping here after
                     # parser is fully memoryview compliant
                     self.upstream.queue(
                         memoryview(
-                            self.pipeline_request.build(),
+                            self.pipeline_request.build(
+                                disable_headers=self.flags.disable_headers,
+                            ),
                         ),
                     )
                     if not self.pipeline_request.is_connection_upgrade:
